@@ -593,6 +593,25 @@ pub fn run_caps(rep: &mut Report, only: Option<&str>) {
         }
     }
     if want("references") {
+        // the budget is the document's, not a block's: the same uses spread over many paragraphs, headings and cells
+        for (url_len, blocks) in [(8000usize, 100usize), (3000, 400)] {
+            let url = format!("/{}", "x".repeat(url_len));
+            let mut md = format!("[a]: {}\n\n", url);
+            for i in 0..blocks {
+                md.push_str(if i % 3 == 2 { "# [a] [a]\n\n" } else { "[a] [a] [a] [a]\n\n" });
+            }
+            rep.s_evals += 1;
+            rep.count("cap-references");
+            match count(&md, &|v| matches!(v, NodeValue::Link(_))) {
+                Ok((links, _, html)) => {
+                    let budget = md.len().max(100_000);
+                    if links * url.len() > budget + url.len() || html as u64 > OUT_A * md.len() as u64 + OUT_B + 2 * budget as u64 {
+                        rep.fail("cap", "reference-expansion", format!("cap references {} {}", url_len, blocks), format!("{} uses of a {}-byte destination spread over {} blocks resolved: {} bytes of expansion, {} bytes of HTML for {} bytes of input (cap: max(100000, input) for the whole document)", links, url.len(), blocks, links * url.len(), html, md.len()));
+                    }
+                }
+                Err(e) => rep.fail("cap", "reference-expansion-panic", format!("cap references {} {}", url_len, blocks), e),
+            }
+        }
         for (url_len, uses) in [(1000usize, 600usize), (5000, 300)] {
             let url = format!("/{}", "a".repeat(url_len));
             let mut md = format!("[a]: {}\n\n", url);
